@@ -27,10 +27,12 @@ pub struct RigCfg {
 	pub max_conns: u32,
 	/// WebSocket ping (interval ms, inactive limit ms); None = pings disabled
 	pub ping_ms: Option<(u64, u64)>,
+	/// what the server serves: "both" (default), "httpOnly", "wsOnly"
+	pub mode: &'static str,
 }
 impl Default for RigCfg {
 	fn default() -> Self {
-		RigCfg { max_req: 10 * 1024 * 1024, max_resp: 10 * 1024 * 1024, batch: BatchRequestConfig::Unlimited, max_subs: 1024, buf_cap: 1024, max_conns: 100, ping_ms: None }
+		RigCfg { max_req: 10 * 1024 * 1024, max_resp: 10 * 1024 * 1024, batch: BatchRequestConfig::Unlimited, max_subs: 1024, buf_cap: 1024, max_conns: 100, ping_ms: None, mode: "both" }
 	}
 }
 impl RigCfg {
@@ -41,6 +43,11 @@ impl RigCfg {
 				jsonrpsee_server::PingConfig::new().ping_interval(Duration::from_millis(i)).inactive_limit(Duration::from_millis(l)).max_failures(1),
 			),
 			None => b,
+		};
+		let b = match self.mode {
+			"httpOnly" => b.http_only(),
+			"wsOnly" => b.ws_only(),
+			_ => b,
 		};
 		b.max_request_body_size(self.max_req)
 			.max_response_body_size(self.max_resp)
